@@ -51,6 +51,8 @@ def DOT_EXT(A, B, o, s, H, n):
 
 def data(a):
     """element map of a base_array / vector spec value (Array(Int, T); struct elements: per-field arrays)"""
+    if type(a).__name__ == 'Unbound':
+        return a
     t = a.tree if hasattr(a, 'tree') else a
     from .values import SVal, VecVal
     if isinstance(t, SVal) and set(t.f) == {'_vec'}:
@@ -59,11 +61,13 @@ def data(a):
 
 
 def re_data(a):
-    return data(a).f['re']
+    d = data(a)
+    return d if type(d).__name__ == 'Unbound' else d.f['re']
 
 
 def im_data(a):
-    return data(a).f['im']
+    d = data(a)
+    return d if type(d).__name__ == 'Unbound' else d.f['im']
 
 
 NS = {'SUMR': SUMR, 'DOT': DOT, 'BRSUM': BRSUM, 'SUMR_BASE': SUMR_BASE, 'SUMR_STEP': SUMR_STEP, 'DOT_BASE': DOT_BASE,
